@@ -763,9 +763,17 @@ struct TemplateCore {
                             storage = tmp;
                             parent_storage.Drop(SizeT{1});
 
-                            LoopTag &tag  = tag_bit->GetLoopTag();
-                            tag.EndOffset = (finder.GetOffset() - TagPatterns::LoopSuffixLength);
-                            loop_tag      = tag.Parent;
+                            LoopTag    &tag        = tag_bit->GetLoopTag();
+                            const SizeT end_offset = (finder.GetOffset() - TagPatterns::LoopSuffixLength);
+
+                            loop_tag = tag.Parent;
+
+                            if (end_offset >= (tag.Offset + tag.ContentOffset)) {
+                                tag.EndOffset = end_offset;
+                            } else {
+                                // "<loop value='v </loop>": the opening tag was closed by the '>' of its own closer.
+                                storage->Drop(SizeT{1});
+                            }
                         }
                     }
 
